@@ -51,8 +51,8 @@ def wl_trees(ctx, rng, case_no):
     r = rng.random()
     if r < 0.08:
         spec = {"k": "nomeasure", "child": spec}
-    elif r < 0.16:
-        spec = {"k": "richcast", "child": spec}
+    elif r < 0.16 and spec["k"] != "richcast":      # (this release casts once: a __rich__ that returns another
+        spec = {"k": "richcast", "child": spec}      # __rich__ object is not a renderable, and nobody says it is)
     m = SP.structural_min(spec)
     if ctx.tier == "thorough" and case_no % 50 == 0:
         widths = list(range(0, 201))
